@@ -129,7 +129,7 @@ pub proof fn lemma_decos_uses_no_marks(ds: Seq<Expr>, n: int, which: int, f: PV,
     if 0 < n <= ds.len() { lemma_decos_uses_no_marks(ds, n - 1, which, f, li); let d = ds[n - 1]; }
 }
 //@tags C03
-/// a plain helper function -- no fixture decorator, no usefixtures / parametrize-indirect mark, name not test_* --
+/// a plain helper function -- no fixture decorator, no usefixtures / parametrize-indirect mark, name not test* --
 /// records nothing, whatever its parameters are called
 pub proof fn lemma_C03_plain_function_records_nothing(s: Stmt, f: PV, src: Seq<char>, li: Seq<usize>)
     requires fn_view(s) is Some, first_fix(fn_view(s)->0.decos, 0) is None, no_marks(fn_view(s)->0.decos), !is_test_name(fn_view(s)->0.name),
@@ -343,7 +343,7 @@ pub proof fn lemma_C03_fixture_fields(v: FnV, d: Expr, f: PV, src: Seq<char>, li
 }
 //@tags C03
 /// exactly one definition per fixture function (the FIRST fixture decorator decides the fields), none for any other
-/// function; a fixture-decorated function named test_* records its parameters twice (once as fixture dependencies
+/// function; a fixture-decorated function named test* records its parameters twice (once as fixture dependencies
 /// without self / request / defaulted parameters, once as test parameters without self / defaulted parameters): that is
 /// what the code does
 pub proof fn lemma_C03_function_records(v: FnV, f: PV, src: Seq<char>, li: Seq<usize>)
@@ -466,7 +466,7 @@ proof fn canary_defaulted_parameter_is_a_usage(ps: Seq<AArg>, f: PV, li: Seq<usi
     requires ps.len() == 1, pname(ps[0]) != "self"@, pname(ps[0]) != "request"@, has_default(ps[0]),
     ensures param_uses(ps, 1, false, f, li).len() == 1,
 {}
-/// a helper function records nothing even if it is called test_*
+/// a helper function records nothing even if it is called test*
 proof fn canary_test_function_records_nothing(s: Stmt, f: PV, src: Seq<char>, li: Seq<usize>)
     requires fn_view(s) is Some, first_fix(fn_view(s)->0.decos, 0) is None, no_marks(fn_view(s)->0.decos),
     ensures visit_uses(s, f, src, li).len() == 0,
